@@ -714,6 +714,10 @@ Qed.
 Lemma to_string_strip a : to_string (strip a) = to_string a.
 Proof. destruct a; reflexivity. Qed.
 
+Theorem to_from_string a : wf_addr a -> addr_valid a = true ->
+  option_map to_string (from_string (to_string a)) = Some (to_string a).
+Proof. intros Hw Hv. rewrite from_to_string by assumption. simpl. rewrite to_string_strip. reflexivity. Qed.
+
 (* the text determines the IP: to_string is injective up to port and scope *)
 Theorem to_string_inj a b : wf_addr a -> wf_addr b -> addr_valid a = true -> addr_valid b = true ->
   (to_string a = to_string b <-> strip a = strip b).
